@@ -38,8 +38,8 @@ BUDGET = {"quick": {"examples": 1200, "seconds": 75}, "thorough": {"examples": 5
 LABEL_FLOORS = {"quick": {"used-before-registration": 300, "isolated": 60}}
 CASE_TIMEOUT = {"quick": 30, "thorough": 60}
 
-KINDS = ["op1", "op2", "term"]
-ALGS = ["mf0", "mf1", "mf2", "tr0", "tr1", "dt0", "lowering", "rcn", "renumber", "replace", "rct", "degree", "arity",
+KINDS = ["op1", "op2", "term", "sub"]
+ALGS = ["mf0", "mf0b", "mf1", "mf2", "tr0", "tr1", "dt0", "lowering", "rcn", "renumber", "replace", "rct", "degree", "arity",
         "derivatives", "expand_indices"]
 
 
@@ -49,7 +49,15 @@ def cases(draw, tier):
     hist = []
     nreg = 0
     for _ in range(n):
-        k = draw(st.sampled_from(["register", "use", "use", "apply", "apply", "apply"]))
+        k = draw(st.sampled_from(["register", "use", "use", "apply", "apply", "apply", "rule"]))
+        if k == "rule":
+            if nreg == 0:
+                continue
+            # register a specific rule for the k-th late type in the generated DAGTraverser class
+            hist.append(["rule", draw(st.integers(0, nreg - 1))])
+            if draw(st.booleans()):
+                hist.append(["apply", "dt0", hist[-1][1]])
+            continue
         if k == "register" and nreg < 3:
             hist.append(["register", draw(st.sampled_from(KINDS))])
             nreg += 1
@@ -120,10 +128,11 @@ def _define_algorithms():
 
     tables = {
         "mf0": {"expr": "post", "terminal": "cut"},
+        "mf0b": {"expr": "post", "terminal": "cut"},  # a different class implementing the same handlers
         "mf1": {"expr": "post", "operator": "post", "terminal": "post", "sum": "post", "coefficient": "cut", "math_function": "cut"},
         "mf2": {"ufl_type": "post", "product": "post", "form_argument": "cut"},
     }
-    algs = {}
+    algs = {"_tables": tables}
     for name, tab in tables.items():
         cls = type("Generated_" + name, (MultiFunction,), {hn: (cut(hn) if k == "cut" else post(hn)) for hn, k in tab.items()})
         algs[name] = (lambda e, cls=cls: map_expr_dag(cls(), e))
@@ -150,6 +159,7 @@ def _define_algorithms():
 
     DT0.process.register(Expr)(any_rule)
     algs["dt0"] = lambda e: DT0()(e)
+    algs["_DT0"] = DT0
 
     from ufl.algorithms import expand_indices
     from ufl.algorithms.apply_algebra_lowering import apply_algebra_lowering
@@ -200,6 +210,15 @@ def _register(kind, k):
                                                 "__str__": lambda self: f"late{k}({self.ufl_operands[0]}, {self.ufl_operands[1]})"}))
         return cls, (lambda: cls(_STATE["old"], _STATE["g"] * 3))
 
+    if kind == "sub":
+        # an external subclass of a ufl type *without* the decorator (the dolfinx Function(Coefficient) pattern): it
+        # shares the type code of its base class
+        import ufl
+
+        cls = type(f"LateFunction{k}", (ufl.Coefficient,), {})
+        V = _STATE["f"].ufl_function_space()
+        return cls, (lambda: ufl.sin(cls(V)) + _STATE["f"] * cls(V))
+
     def tinit(self):
         Terminal.__init__(self)
 
@@ -221,27 +240,61 @@ def _canon(text):
         return seen.setdefault(m.group(1) or m.group(2), f"i#{len(seen)}")
 
     text = re.sub(r"i_(?:\{(\d+)\}|(\d+))", sub, str(text))
+    seen_w = {}
+    text = re.sub(r"w_(?:\{(\d+)\}|(\d+))", lambda m: seen_w.setdefault(m.group(1) or m.group(2), f"w#{len(seen_w)}"), text)
     return re.sub(r"x\d+", "x", text)[:2000]  # (unique suffixes of the late type names)
 
 
+def _expected(alg, algs, target, dt_rules):
+    """what the *generated* algorithms must return (their semantics are known): nearest-ancestor dispatch"""
+    from vf.props.c19 import tree_apply
+
+    if alg in algs["_tables"]:
+        r = tree_apply(target, algs["_tables"][alg])
+        return None if isinstance(r, tuple) else r
+    if alg in ("tr0", "tr1"):
+        return str(target)
+    if alg == "dt0":
+        def ref(n):
+            c = next((c for c in type(n).__mro__ if c in dt_rules), None)
+            if c is not None:
+                return f"Rule:{c.__name__}[{type(n).__name__}]"
+            return f"Expr:{type(n).__name__}({','.join(ref(o) for o in n.ufl_operands)})"
+        return ref(target)
+    return None
+
+
 def run_history(history):
-    """executed in the child: returns the list of observations, one per step"""
+    """executed in the child (or in-process): returns the list of observations, one per step; for the generated
+    algorithms an observation carries the expected result as third entry"""
     algs = _define_algorithms()
     makers = []
+    classes = []
+    dt_rules = set()
     obs = []
     for step in history:
         try:
             if step[0] == "register":
                 cls, mk = _register(step[1], len(makers))
                 makers.append(mk)
+                classes.append(cls)
                 obs.append(["registered", cls.__name__])
-            elif step[0] == "use":
-                r = algs[step[1]](_STATE["old"])
-                obs.append(["ok", _canon(r)])
+            elif step[0] == "rule":
+                cls = classes[step[1]]
+
+                def make_rule(c):
+                    def rule(self, o):
+                        return f"Rule:{c.__name__}[{type(o).__name__}]"
+                    return rule
+
+                algs["_DT0"].process.register(cls)(make_rule(cls))
+                dt_rules.add(cls)
+                obs.append(["rule", cls.__name__])
             else:
-                target = _STATE["old"] if step[2] == "old" else makers[step[2]]()
+                target = _STATE["old"] if (step[0] == "use" or step[2] == "old") else makers[step[2]]()
                 r = algs[step[1]](target)
-                obs.append(["ok", _canon(r)])
+                exp = _expected(step[1], algs, target, dt_rules)
+                obs.append(["ok", _canon(r)] + ([_canon(exp)] if exp is not None else []))
         except BaseException as ex:  # noqa: B902
             tb = traceback.extract_tb(ex.__traceback__)
             where = ""
@@ -288,7 +341,7 @@ def front_loaded(history):
     """registrations first (same relative order), everything else in the original order; also returns for every
     original step its position in the permuted history"""
     regs = [k for k, s in enumerate(history) if s[0] == "register"]
-    rest = [k for k, s in enumerate(history) if s[0] != "register"]
+    rest = [k for k, s in enumerate(history) if s[0] != "register"]  # ("rule" steps keep their place)
     order = regs + rest
     return [history[k] for k in order], {k: p for p, k in enumerate(order)}
 
@@ -328,7 +381,7 @@ def check_case(case):
                 used_before = True
             cur_used.add(step[1])
     for k, step in enumerate(hist):
-        if step[0] == "register":
+        if step[0] in ("register", "rule"):
             continue
         a, b = obs[k], ref[pos[k]]
         if step[0] == "apply" and step[2] != "old":
@@ -336,6 +389,10 @@ def check_case(case):
                 if o[0] == "exc" and o[1] in ("IndexError", "KeyError"):
                     raise Violation(f"step {k} {step}: {which} history: dispatch failed with {o[1]} at {o[2]}: {o[3]}",
                                     {"kind": "dispatch-" + o[1], "alg": step[1]})
+        for o, which in ((a, "interleaved"), (b, "registrations-first")):
+            if o[0] == "ok" and len(o) > 2 and o[1] != o[2]:
+                raise Violation(f"step {k} {step}: {which} history: generated algorithm returned {o[1][:140]} but nearest-ancestor "
+                                f"dispatch gives {o[2][:140]}", {"kind": "wrong-dispatch", "alg": step[1] if len(step) > 1 else ""})
         if a[:2] != b[:2]:
             raise Violation(f"step {k} {step}: observation depends on the registration order: {str(a)[:160]} vs {str(b)[:160]}",
                             {"kind": "order-dependent", "alg": step[1]})
